@@ -19,7 +19,7 @@ import (
 // the set written, plus the owner's FULL_CONTROL. A grantee may hold several permissions.
 
 type aclGet struct {
-	Owner struct{ ID string }
+	Owner             struct{ ID string }
 	AccessControlList struct {
 		Grant []struct {
 			Grantee struct {
